@@ -2,7 +2,7 @@
     Statements only; proofs are in CodecRT.v / CodecV1.v / Reload.v (generic in the format [f]);
     in the world-level theorem at the end every tree has its own format. *)
 From Coq Require Import List NArith ZArith Bool.
-From Mast Require Import WorldInv Prim Key Tree KeyOrder Codec CodecRT CodecV1 DecRT RootRT Store Diff World Erase Build Spec Canon Links Level Inv Persist Hist Reload.
+From Mast Require Import WorldInv Prim Key Tree KeyOrder Codec CodecRT CodecV1 DecRT RootRT KeyRT Store Diff World Erase Build Spec Canon Links Level Inv Persist Hist Reload.
 Import ListNotations.
 
 (** the compact binary node format round-trips for arbitrary element bodies (keys, values: any
@@ -49,6 +49,12 @@ Theorem C05_uint_keys_roundtrip : forall n, (n <= 18446744073709551615)%N -> key
 Proof. exact key_rt_uint. Qed.
 Theorem C05_string_keys_roundtrip : forall s, key_rt 2 (KStr s).
 Proof. exact key_rt_str. Qed.
+(** ... every []byte key (standard base64 in a JSON string; bytes below 256) and every mast.Key key
+    of the harness's shape ({"K":z,"L":l}) *)
+Theorem C05_bytes_keys_roundtrip : forall b, bytes_ok b -> key_rt 3 (KBytes b).
+Proof. exact key_rt_bytes. Qed.
+Theorem C05_user_keys_roundtrip : forall z l, (Z.abs z < Z.of_N ten40)%Z -> (N.of_nat l < ten40)%N -> key_rt 5 (KUser z l).
+Proof. exact key_rt_user. Qed.
 
 (** Persisting a tree of ANY residency mix (in-memory nodes, nodes already in the store, or both)
     and loading the returned root from the resulting store yields a tree with exactly the same entries
@@ -168,7 +174,7 @@ Example C05_example_both_formats :
 Proof. split; [apply condsb_ok; vm_compute; reflexivity|]. vm_compute. repeat split; reflexivity. Qed.
 
 (** PARTIAL: custom marshalers and caches are outside the model (decided by the correspondence
-    check); the round trip of []byte and mast.Key keys is a hypothesis ([key_rt], decidable). *)
+    check); the round trip of keys of any other type (ordered and layered by their marshaled bytes) is a hypothesis ([key_rt], decidable). *)
 Print Assumptions C05_binary_roundtrip.
 Print Assumptions C05_uvarint_roundtrip.
 Print Assumptions C05_v1_roundtrip.
@@ -176,6 +182,8 @@ Print Assumptions C05_root_json_roundtrip.
 Print Assumptions C05_int_keys_roundtrip.
 Print Assumptions C05_uint_keys_roundtrip.
 Print Assumptions C05_string_keys_roundtrip.
+Print Assumptions C05_bytes_keys_roundtrip.
+Print Assumptions C05_user_keys_roundtrip.
 Print Assumptions C05_v1_key_texts.
 Print Assumptions C05_v1_names.
 Print Assumptions C05_list_ok_binary.
